@@ -369,6 +369,68 @@ func hugeSequences(fns []string) []caseH2CSeq {
 	return out
 }
 
+// bufferBoundarySequences are fixed cases around the sizes at which an implementation may switch paths (a scratch buffer of 4, 32 or
+// 64 KiB, a pooled block, a "small message" threshold): for every size B among 2^8..2^16, 3*2^8..3*2^14, 10^3..10^5 (thorough: up to
+// 2^20 and 10^6) EVERY message length from B - 120 - len(DST) to B + 8 is hashed, with a 16-byte tag and with an oversize tag of 256
+// bytes, so that whatever the implementation counts (the message, message + tag, the whole pre-image of b_0 with its 64 + 3 + 1
+// bytes of framing, with the raw or the reduced tag) crosses B by -8..+8 in one of the calls. Above that, up to 2^20 and 10^6, only
+// the crossings of the message length and of the b_0 pre-image are hashed. Each sequence holds 32 consecutive lengths.
+func bufferBoundarySequences(fns []string) []caseH2CSeq {
+	var (
+		out   []caseH2CSeq
+		sizes []int
+	)
+	full := 1 << 16
+	if os.Getenv("VERIF_TIER") == "thorough" {
+		full = 1 << 20
+	}
+	for k := 8; k <= 20; k++ {
+		sizes = append(sizes, 1<<k)
+		if k <= 18 {
+			sizes = append(sizes, 3<<k)
+		}
+	}
+	sizes = append(sizes, 1000, 10000, 100000, 1000000)
+	d16, d256 := hex.EncodeToString(bytes.Repeat([]byte{'b'}, 16)), hex.EncodeToString(bytes.Repeat([]byte{'B'}, 256))
+	n := 0
+	for _, b := range sizes {
+		for _, dst := range []struct {
+			h        string
+			raw, eff int
+		}{{d16, 16, 16}, {d256, 256, 32}} {
+			var lens []int
+			if b <= full {
+				for l := b - 120 - dst.raw; l <= b+8; l++ {
+					lens = append(lens, l)
+				}
+			} else {
+				for d := -8; d <= 8; d++ {
+					lens = append(lens, b+d, b+d-(64+3+1+dst.eff), b+d-dst.raw)
+				}
+			}
+			var steps []h2cStep
+			flush := func() {
+				if len(steps) > 0 {
+					out = append(out, caseH2CSeq{Steps: steps, Spare: n % 2})
+					steps = nil
+				}
+			}
+			for _, l := range lens {
+				if l < 1 {
+					continue
+				}
+				n++
+				steps = append(steps, h2cStep{Fn: fns[n%len(fns)], Dst: dst.h, MsgLen: l})
+				if len(steps) == 32 {
+					flush()
+				}
+			}
+			flush()
+		}
+	}
+	return out
+}
+
 type caseH2CSeq struct {
 	Steps []h2cStep `json:"steps"`
 	Spare int       `json:"spare"`        // spare capacity left behind the DST in the shared buffer
@@ -549,6 +611,7 @@ func runH2CSeq(c caseH2CSeq, o *gen.Obs) error {
 			maxM = l
 		}
 		o.ClassIf(st.MsgLen >= 1<<20, "huge-message")
+		o.ClassIf(st.MsgLen > 0 && st.MsgLen < 1<<20 && len(c.Steps) > 8, "message-length-sweep-around-buffer-sizes")
 	}
 	dstBuf, msgBuf := make([]byte, maxD+c.Spare), make([]byte, maxM+c.Spare)
 	oversize, inplace, rejected, failedRandoms := 0, 0, 0, 0
@@ -655,7 +718,7 @@ var c08seq = gen.Register(&gen.Check[caseH2CSeq]{
 	Gen:    genH2CSeq([]string{"ro", "nu"}),
 	Run:    runH2CSeq,
 	Fixed: func() []caseH2CSeq {
-		return append(append(shiftedBoundarySequences([]string{"ro", "nu"}), twinSequences([]string{"ro", "nu"})...), hugeSequences([]string{"ro", "nu"})...)
+		return append(append(shiftedBoundarySequences([]string{"ro", "nu"}), twinSequences([]string{"ro", "nu"})...), append(bufferBoundarySequences([]string{"ro", "nu"}), hugeSequences([]string{"ro", "nu"})...)...)
 	},
 	Required: []string{"oversize-dst-twice", "same-length-overwrite", "huge-message", "after-recovered-panics", "after-failed-random"},
 })
@@ -667,7 +730,7 @@ var c09seq = gen.Register(&gen.Check[caseH2CSeq]{
 	Gen:    genH2CSeq([]string{"scalar"}),
 	Run:    runH2CSeq,
 	Fixed: func() []caseH2CSeq {
-		return append(append(shiftedBoundarySequences([]string{"scalar"}), twinSequences([]string{"scalar"})...), hugeSequences([]string{"scalar"})...)
+		return append(append(shiftedBoundarySequences([]string{"scalar"}), twinSequences([]string{"scalar"})...), append(bufferBoundarySequences([]string{"scalar"}), hugeSequences([]string{"scalar"})...)...)
 	},
 	Required: []string{"oversize-dst-twice", "same-length-overwrite", "huge-message", "after-recovered-panics", "after-failed-random"},
 })
